@@ -1002,11 +1002,16 @@ replace_write_f2d	(SF_PRIVATE *psf, const float *ptr, sf_count_t len)
 	sf_count_t	total = 0 ;
 
 	bufferlen = ARRAY_LEN (ubuf.dbuf) ;
+	/* Whole frames only : the peak update needs frame aligned chunks. */
+	bufferlen -= bufferlen % psf->sf.channels ;
 
 	while (len > 0)
 	{	if (len < bufferlen)
 			bufferlen = (int) len ;
 		f2d_array (ptr + total, ubuf.dbuf, bufferlen) ;
+
+		if (psf->peak_info)
+			double64_peak_update (psf, ubuf.dbuf, bufferlen, total / psf->sf.channels) ;
 
 		bd2d_write (ubuf.dbuf, bufferlen) ;
 
